@@ -139,6 +139,9 @@ SIM_NOTE = ("One sequentially consistent interleaving per case, chosen by data: 
             "effects on registry/flag atomics; System clock only (TSC cannot be virtualised); fork per case, ASan+UBSan, quill asserts on.")
 
 
+TSC_NOTE = " The TSC clock (quill's default) is covered by the tscorder job: harness thread = backend, real worker threads logging one operation at a time, real sleeps relative to the grace period; the order oracle applies only when every log call was measured to take less wall time than the grace period; TSC re-synchronisation is configured out."
+
+
 def _simjobs(prop, bins, quick_cases=700, quick_procs=2, thorough_cases=10000, thorough_procs=4, extra=None):
     jobs = []
     for b in bins:
@@ -177,7 +180,7 @@ PROPERTIES = {
                        "enqueuing, time steps of grace/2, grace-1, grace, grace+1, 10x grace, first-time loggers inside the backend's "
                        "pass, hard-limit delayed reads; each sink timestamp must equal the value the clock handed to that call, and "
                        "when every statement was enqueued within the grace period the global write order is non-decreasing."),
-        "level_note": SIM_NOTE,
+        "level_note": SIM_NOTE + TSC_NOTE,
         "rule": SIM_CASE + ("Log ops may carry a stall inside the clock read; non-trivial = >= 2 threads logged AND (a burst between "
                             "queue reads OR a blocked worker OR an exited thread with unwritten statements); cases where some "
                             "statement missed the deadline are labelled precondition_violated and only checked for delivery"),
@@ -194,7 +197,7 @@ PROPERTIES = {
                        "also inside backend passes), on blocking and dropping flavours; at the instant flush_log() returns every "
                        "earlier statement of the caller (and, with ordering enabled, of any thread whose call had completed) must be "
                        "on all its sinks with a flush_sink after it; a flush still blocked with an idle backend is a violation."),
-        "level_note": SIM_NOTE + " Recording sinks (flush observed as flush_sink call); the real FileSink read-back is covered by C07's children.",
+        "level_note": SIM_NOTE + " Recording sinks (flush observed as flush_sink call); the real FileSink read-back is covered by C07's children." + TSC_NOTE,
         "rule": SIM_CASE + ("non-trivial = >= 2 threads logged AND a flush was issued while statements of OTHER threads whose calls had "
                             "completed were required to be written by it"),
         "assumptions": ["flush_log is never called from the backend thread (documented)"],
